@@ -1,5 +1,6 @@
 (* Dispatch: the single entry point of the extracted model. One request line in, one result line out. *)
-From Klog Require Import Base.Prelude Model.Show Model.SuiteValues.
+From Klog Require Import Base.Prelude Model.Show Model.SuiteValues
+  Model.SuitePeriod Model.SuiteTags Model.SuiteStyler Model.SuiteBookmarks.
 
 Definition first_some (l : list (option bytes)) : bytes :=
   match flat_map (fun o => match o with Some x => [x] | None => [] end) l with
@@ -9,6 +10,11 @@ Definition first_some (l : list (option bytes)) : bytes :=
 
 Definition dispatch (line : bytes) : bytes :=
   match tokens line with
-  | cmd :: args => first_some [suite_values cmd args]
+  | cmd :: args =>
+    first_some [suite_values cmd args;
+                suite_period cmd args;
+                suite_tags cmd args;
+                suite_styler cmd args;
+                suite_bookmarks cmd args]
   | [] => b!"?empty"
   end.
